@@ -2,6 +2,7 @@ package treegen
 
 import (
 	"fmt"
+	"sort"
 	"strings"
 
 	"github.com/wader/fq/pkg/decode"
@@ -122,6 +123,87 @@ func CompareTree(top *decode.Value, pred *Prediction, res *Result) {
 		}
 		if !sameOrder {
 			res.Failf("child-order", "%s: fq has children [%s], predicted [%s]", path, kidNames(fk), rkidNames(rk))
+			return
+		}
+		for i := range fk {
+			p := path
+			if p == "." {
+				p = ""
+			}
+			if rn.Kind == 'a' {
+				p = fmt.Sprintf("%s[%d]", p, i)
+			} else {
+				p = p + "." + rk[i].Name
+			}
+			cmp(fk[i], rk[i], p)
+		}
+	}
+	cmp(top, pred.Root, ".")
+}
+
+// CompareGaps checks the gap fields of a generated program's tree against the
+// reference: the reference knows the bit range handed to every gap filling
+// decode, so every gap field of that decode must lie inside it, and the gap
+// fields must be exactly the predicted ones (the model follows the probed
+// one-bit tolerance of ranges.Gaps, which C04's coverage oracle reports).
+// Structural disagreements between the two trees are C03's subject: the walk
+// stops there silently.
+func CompareGaps(top *decode.Value, pred *Prediction, res *Result) {
+	if pred.Root == nil || top == nil || pred.GapPanic {
+		return
+	}
+	type rg struct{ s, l int64 }
+	str := func(rs []rg) string {
+		var ns []string
+		for _, r := range rs {
+			ns = append(ns, fmt.Sprintf("%d:%d", r.s, r.l))
+		}
+		return "[" + strings.Join(ns, " ") + "]"
+	}
+	var cmp func(fv *decode.Value, rn *RNode, path string)
+	cmp = func(fv *decode.Value, rn *RNode, path string) {
+		if valueKind(fv) != rn.Kind || !rn.compound() {
+			return
+		}
+		var fk []*decode.Value
+		var fg, rgaps []rg
+		for _, k := range fv.V.(*decode.Compound).Children {
+			if valueIsGap(k) {
+				if k.Range.Len != 0 {
+					fg = append(fg, rg{k.Range.Start, k.Range.Len})
+				}
+			} else {
+				fk = append(fk, k)
+			}
+		}
+		var rk []*RNode
+		for _, k := range rn.Kids {
+			if k.Gap {
+				if k.Len != 0 {
+					rgaps = append(rgaps, rg{k.Start, k.Len})
+				}
+			} else {
+				rk = append(rk, k)
+			}
+		}
+		sort.Slice(fg, func(i, j int) bool { return fg[i].s < fg[j].s })
+		sort.Slice(rgaps, func(i, j int) bool { return rgaps[i].s < rgaps[j].s })
+		switch {
+		case rn.Fmt && rn.GapFill:
+			bad := false
+			for _, g := range fg {
+				if g.s < rn.DecStart || g.s+g.l > rn.DecStart+rn.DecLen {
+					res.Failf("gap-outside-its-decode-range", "%s: the gap filling decode was handed bits %d:%d of its buffer, its gap field %d:%d is not inside", path, rn.DecStart, rn.DecLen, g.s, g.l)
+					bad = true
+				}
+			}
+			if !bad && fmt.Sprint(fg) != fmt.Sprint(rgaps) {
+				res.Failf("gap-fields-differ-from-reference", "%s: decode of bits %d:%d has gap fields %s, the reference interpreter predicts %s", path, rn.DecStart, rn.DecLen, str(fg), str(rgaps))
+			}
+		case len(fg) > 0:
+			res.Failf("gap-field-without-gap-filling", "%s: gap fields %s in a value no gap filling decode produced", path, str(fg))
+		}
+		if len(fk) != len(rk) {
 			return
 		}
 		for i := range fk {
